@@ -49,6 +49,7 @@ def gen(tier, rng):
     # seconds in which a rotation message is sent; every payload datagram is replayed after the receiver has ticked twice and three times
     r = rng.fork("node")
     yield nodegen.long_session_script(r, "node-window-0", 260, drop_at=(), replay_age=(2, 3))
+    yield nodegen.long_session_script(r, "node-window-stale-attempt", 90, drop_at=(), replay_age=(2, 3), stale_ping_at=(20, 70))
     if tier == "thorough":
         for i in range(3):
             yield nodegen.long_session_script(r, "node-window-%d" % (i + 1), 500, drop_at=(r.range(100, 400),), replay_age=(2, r.range(3, 6)))
